@@ -393,7 +393,7 @@ class ModuleHandle(object):
             # Iterate through the nodes and reconstruct the
             # value of __all__
             for n in ast_mod:
-                if isinstance(n, ast.Assign):
+                if isinstance(n, (ast.Assign, ast.AnnAssign)):
                     if "__all__" in self._member_from_node(n):
                         try:
                             all_members = list(ast.literal_eval(n.value))
